@@ -1845,9 +1845,9 @@ def rp_cases(ctx):
     places = list(rp_places('x'))
     pairs = [(pl, pn) for pl, pn, _ in RP_CORPUS]
     pairs += [('action_param', pn) for pn in pays]
-    must = ['int4301', 'arr5000', 'open5000', 'bare_long', 'words_long', 'dashes_long', 'unterminated_long']   # at EVERY place
+    must = ['int4301', 'arr5000', 'open5000', 'bare_long', 'words_long']   # at EVERY place
     for pl in places:
-        chosen = pays if ctx.thorough() else must + ctx.rng.sample([p for p in pays if p not in must], 4)
+        chosen = pays if ctx.thorough() else must + ctx.rng.sample([p for p in pays if p not in must], 3)
         pairs += [(pl, pn) for pn in chosen]
     seen, out = set(), []
     for x in pairs:
@@ -1905,7 +1905,7 @@ def suite_reparse_rest(ctx):
     drv.reset(ctx.seed)
     for place, pn in pairs:
         kind, text = rp_document(place, pn, big)
-        for method, path, okset in (('post', url[kind] + '/validate', {200}), ('post', url[kind], {201, 400, 409}),
+        for method, path, okset in (('post', url[kind] + '/validate', {200, 400}), ('post', url[kind], {201, 400, 409}),
                                     ('put', url[kind], {200, 400, 404})):
             signal.alarm(DOC_LIMIT_S * 2)
             try:
